@@ -120,8 +120,8 @@ PROPS["C06"] = {
 
 PROPS["C20"] = {
     "module": "Matreex.Props.C20", "harness": "C20", "post": "fmtcfg",
-    "level_text": "PARTIAL. Machine-checked Lean 4 theorems about a List-Char model of both fmt bodies (no panic for any matrix and any renderings; for single-line renderings the exact text: one bracketed line per logical row, equal widths; order transparency of Display), tied to the implementation by exhaustive-palette correspondence of the complete output text of Display and Debug. "
-                  "All three feature configurations are executed on every run: the harness links features=full (colour feature compiled in, NO_COLOR set so colours are unsupported), and every formatting operation of the run is recomputed against /repo built with no default features and with the crate's default features (fmtcfg); the three texts must be identical. Not carried by the model: the colour feature's behaviour when colours ARE supported (owo-colors styling, supports-color detection); Debug's label layout is tied by correspondence only (no theorem about the labels).",
+    "level_text": "PARTIAL. Machine-checked Lean 4 theorems about a List-Char model of both fmt bodies (no panic for any matrix and any renderings; for single-line renderings the exact text of Display — one bracketed line per logical row, equal widths, order transparency — and of Debug — header of column numbers, row numbers, every element labelled with its position in memory order), tied to the implementation by exhaustive-palette correspondence of the complete output text of Display and Debug. "
+                  "All three feature configurations are executed on every run: the harness links features=full (colour feature compiled in, NO_COLOR set so colours are unsupported), and every formatting operation of the run is recomputed against /repo built with no default features and with the crate's default features (fmtcfg); the three texts must be identical. Not carried by the model: the colour feature's behaviour when colours ARE supported (owo-colors styling, supports-color detection); multi-line renderings are covered by the no-panic theorems and by correspondence of the full text, not by an exact-text theorem.",
     "technique": "Lean 4 theorems over a List Char model of fmt.rs (loop invariants for the Lines cache; str::lines for break-free strings; width = max over logical positions) + full-text correspondence over a palette of empty / multi-byte / multi-line / CRLF renderings",
     "trusted": ["core::fmt width/alignment padding ({:<w$}, {:>w$}, {SPACE:w$} = at least w characters), str::lines, chars().count() modelled in Model/Fmt.lean",
                 "element Display/Debug impls are an input function (render)",
